@@ -166,15 +166,16 @@ prop("C01",
      )
 
 prop("C04",
-     modules=["Emu2a.Props.C04"],
+     modules=["Emu2a.Props.C04", "Emu2a.Props.C04x.AnyCycle"],
      theorems=["Emu2a.C04.int_taken", "Emu2a.C04.instr_to_end", "Emu2a.C04.trigger_sets_iff_micr",
                "Emu2a.C04.trigger_disabled_noop", "Emu2a.C04.sampled_only_at_end", "Emu2a.C04.reti_entry_roundtrip",
                "Emu2a.IntEntry.end_to_int", "Emu2a.IntEntry.end_to_fetch", "Emu2a.IntEntry.entry_from_10",
-               "Emu2a.IntEntry.end_successors", "Emu2a.C04.one_byte_to_end", "Emu2a.C04.second_to_end"],
+               "Emu2a.IntEntry.end_successors", "Emu2a.C04.one_byte_to_end", "Emu2a.C04.second_to_end",
+               "Emu2a.C04.press_any_cycle", "Emu2a.C04.press_commutes", "Emu2a.C04.step_withPend", "Emu2a.C04.nextAddr_indep"],
      harness="c04",
      shrink=False,
      exhaustive={"quick": False, "thorough": False},
-     level_text="Lean theorems over the regenerated control store: a key press sets the flip-flop iff MICR's key-edge enable bit is set and otherwise only sets a status bit (trigger_*); the flip-flop is untouched by every micro-step that is not an end word (sampled_only_at_end; instr_to_end: for every covered instruction and ANY state of the flip-flop the instruction runs to its end word with exactly Isa.step's effect) - so a request raised in any cycle is looked at only between two instructions; int_taken: with the request pending and IEF set at the end of the instruction the machine reaches, 9 micro-steps later, the first boundary of the routine in state intEntry(result) (FR and next address pushed, upper FR bits cleared, PC = 2) with the flip-flop clear (hence once), with IEF clear the request is dropped; reti_entry_roundtrip (specification level): RETI on the stack left by intEntry restores PC, FR incl. IEF and SP. instr_to_end covers every defined instruction incl. MUL and DIV (their loops never touch the flip-flop). Every-cycle sweeps on the real machine check count and transparency",
+     level_text="Lean theorems over the regenerated control store: a key press sets the flip-flop iff MICR's key-edge enable bit is set and otherwise only sets a status bit (trigger_*); the flip-flop is untouched by every micro-step that is not an end word (sampled_only_at_end; instr_to_end: for every covered instruction and ANY state of the flip-flop the instruction runs to its end word with exactly Isa.step's effect) - so a request raised in any cycle is looked at only between two instructions; int_taken: with the request pending and IEF set at the end of the instruction the machine reaches, 9 micro-steps later, the first boundary of the routine in state intEntry(result) (FR and next address pushed, upper FR bits cleared, PC = 2) with the flip-flop clear (hence once), with IEF clear the request is dropped; press_any_cycle: the same when the request is raised after ANY number k of executed micro-steps of the instruction (the flip-flop is set between two edges, which is what a key press does) - press_commutes / step_withPend / nextAddr_indep: the flip-flop is read only by words that sample it, setting it commutes with every other step, so the run equals the run with the request pending from the start; reti_entry_roundtrip (specification level): RETI on the stack left by intEntry restores PC, FR incl. IEF and SP. instr_to_end covers every defined instruction incl. MUL and DIV (their loops never touch the flip-flop). Every-cycle sweeps on the real machine check count and transparency",
      technique="Lean 4 symbolic execution of the interrupt-entry routine generic in the end word + per-instruction end-word lemmas (generated) + every-clock-cycle trigger sweep on the real machine",
      rule="generated main programs (LDSP, MICR enable + EI at a random point, 6-15 random ALU/MUL/DIV/PUSH/POP/memory/output/CMP instructions, optionally DI..EI sections, CALL/RET, final spin loop) with a register-preserving interrupt routine that bumps a RAM counter; the key is pressed at EVERY clock cycle 0..T+6 (one run per cycle): expected count = (MICR key enable at the trigger cycle) AND (IEF as left by the first end word after the trigger), and the final registers, flags, SP, PC, outputs and RAM (without the counter and the dead stack area) must equal the uninterrupted run; pairs of triggers in a 12/40-cycle window: count <= 2 and transparency; the model machine is compared at the trigger and 120 edges after the sampling point; distinct = (program, cycle)",
      explanation="`enabled` in the property means: enable bit set when the key is pressed and IEF set at the next sampling point; EI, DI and RETI end without sampling (the request stays pending over them)",
